@@ -510,6 +510,20 @@ fn fold_constraint_set(
             fold_constraint_set(s, char_set, range_constraint)?
         }
     };
+    // An EXCEPT and the value set that follows it are ignored: what remains is the base. The
+    // arms below exchange base and operand, which is sound for commutative operators only.
+    if let (
+        SetOperator::Except,
+        SubtypeElements::PermittedAlphabet(elem_or_set) | SubtypeElements::SizeConstraint(elem_or_set),
+    ) = (&set.operator, &set.base)
+    {
+        return match &**elem_or_set {
+            ElementOrSetOperation::Element(e) => Ok(Some(e.clone())),
+            ElementOrSetOperation::SetOperation(s) => {
+                fold_constraint_set(s, char_set, range_constraint)
+            }
+        };
+    }
     match (&set.base, &folded_operant) {
         (base, Some(SubtypeElements::PermittedAlphabet(elem_or_set)))
         | (SubtypeElements::PermittedAlphabet(elem_or_set), Some(base))
